@@ -104,10 +104,12 @@ fn native_enum_store_root_proofs_witness() {
                     o.hashtable_buckets(if workers == 1 && reopen { 32 } else { 4096 });
                     o.bitbox_seed([3; 16]);
                     if workers > 1 {
-                        // the other end of the tuning space: tiny caches, warm-up on, more I/O workers,
+                        // the other end of the tuning space: empty or tiny caches, warm-up on, more I/O workers,
                         // no cache pre-population, a different hash-table seed for the reopening runs
-                        o.page_cache_size(1);
-                        o.leaf_cache_size(1);
+                        // (0 MiB is the smallest size the options accept: nothing cached beyond the
+                        // pinned levels)
+                        o.page_cache_size(rotation % 2);
+                        o.leaf_cache_size(rotation % 2);
                         o.warm_up(true);
                         o.io_workers(2);
                         o.prepopulate_page_cache(reopen);
